@@ -80,39 +80,49 @@ func leaf(t string, id int, withN bool) rec {
 
 func nilLeaf() rec { return leaf("nil", 0, false) }
 
+// callState is the per-call context handed to the decoder as its T: ONE decoder
+// instance is shared by all recorded calls of the process, as an application
+// would reuse it, so state leaking from one message into the next is visible.
+type callState struct {
+	calls   []rec
+	replies []rec
+}
+
+func (cs *callState) reply() error {
+	k := len(cs.calls) - 1
+	if k < len(cs.replies) {
+		return buildErr(cs.replies[k])
+	}
+	return nil
+}
+
+var sharedDecoder = corebgp.NewUpdateDecoder[*callState](
+	func(cs *callState, b []byte) error {
+		cs.calls = append(cs.calls, rec{"k": "wr", "type": 0, "flags": 0, "b": ints(b)})
+		return cs.reply()
+	},
+	func(cs *callState, code uint8, flags corebgp.PathAttrFlags, b []byte) error {
+		cs.calls = append(cs.calls, rec{"k": "attr", "type": int(code), "flags": int(flags), "b": ints(b)})
+		return cs.reply()
+	},
+	func(cs *callState, b []byte) error {
+		cs.calls = append(cs.calls, rec{"k": "nlri", "type": 0, "flags": 0, "b": ints(b)})
+		return cs.reply()
+	})
+
 // runUpdate decodes body with callbacks that record their arguments and
 // answer from replies (position in call order; missing = nil).
 func runUpdate(body []byte, replies []rec) (r rec) {
-	calls := []rec{}
-	r = rec{"panic": false, "calls": calls, "err": dump(nil), "notif": notifRec(nil)}
+	cs := &callState{calls: []rec{}, replies: replies}
+	r = rec{"panic": false, "calls": cs.calls, "err": dump(nil), "notif": notifRec(nil)}
 	defer func() {
 		if p := recover(); p != nil {
 			r["panic"] = true
-			r["calls"] = calls
+			r["calls"] = cs.calls
 		}
 	}()
-	reply := func() error {
-		k := len(calls) - 1
-		if k < len(replies) {
-			return buildErr(replies[k])
-		}
-		return nil
-	}
-	dec := corebgp.NewUpdateDecoder[int](
-		func(_ int, b []byte) error {
-			calls = append(calls, rec{"k": "wr", "type": 0, "flags": 0, "b": ints(b)})
-			return reply()
-		},
-		func(_ int, code uint8, flags corebgp.PathAttrFlags, b []byte) error {
-			calls = append(calls, rec{"k": "attr", "type": int(code), "flags": int(flags), "b": ints(b)})
-			return reply()
-		},
-		func(_ int, b []byte) error {
-			calls = append(calls, rec{"k": "nlri", "type": 0, "flags": 0, "b": ints(b)})
-			return reply()
-		})
-	err := dec.Decode(0, append([]byte{}, body...))
-	r["calls"] = calls
+	err := sharedDecoder.Decode(cs, append([]byte{}, body...))
+	r["calls"] = cs.calls
 	r["err"] = dump(err)
 	r["notif"] = notifRec(corebgp.UpdateNotificationFromErr(err))
 	return r
@@ -304,6 +314,30 @@ func genUpdate(out *sink, rnd *rand.Rand, thorough bool) {
 			wb := append([]byte{0, 4, 24, 10, 1, 1, byte(len(blk) >> 8), byte(len(blk))}, blk...)
 			emit(append(wb, nl...), nil)
 		}
+	}
+	// a repeated attribute (plain and MP) whose header is complete but whose length runs past the block,
+	// after a complete first occurrence; with and without NLRI, with and without the mandatory attributes
+	for _, t := range []byte{1, 2, 3, 14, 15, 99} {
+		for _, ext := range []bool{false, true} {
+			for _, pre := range [][]byte{nil, append(append([]byte{}, org...), asp...)} {
+				first := attrBytes(0x80, t, []byte{0, 2, 1}, false)
+				second := attrBytes(0x80, t, []byte{9, 9, 9, 9, 9, 9}, ext)
+				blk := append(append(append([]byte{}, pre...), first...), second[:len(second)-3]...) // value cut short
+				for _, nl := range [][]byte{nil, {24, 10, 0, 0}} {
+					b := append([]byte{0, 0, byte(len(blk) >> 8), byte(len(blk))}, blk...)
+					emit(append(b, nl...), nil)
+				}
+			}
+		}
+	}
+	// a message that aborts (repeated MP attribute) followed by ordinary ones: nothing may leak into the next call
+	dupmp := append(append([]byte{}, mpu...), mpu...)
+	for i := 0; i < 3; i++ {
+		b := append([]byte{0, 0, 0, byte(len(dupmp))}, dupmp...)
+		emit(b, nil)
+		okb := append(append(append([]byte{}, org...), asp...), mpu...)
+		emit(append(append([]byte{0, 0, 0, byte(len(okb))}, okb...), 24, 10, 0, 0), nil)
+		emit(append(append([]byte{0, 0, 0, byte(len(okb))}, okb...), 24, 10, 0, 0), nil)
 	}
 	// random bodies up to 4077
 	m := 300
